@@ -132,6 +132,7 @@ def run(ctx):
     ctx.guard(rule_e, ctx, ix)
     ctx.guard(rule_f, ctx, ix)
     ctx.guard(rule_g, ctx, ix)
+    ctx.guard(rule_h, ctx, ix)
 
 
 def rule_ab(ctx, ix):
@@ -374,3 +375,86 @@ def kwarg_or_pos(call, name):
         if k.arg == name:
             return k.value
     return call.args[0] if call.args else ast.Constant(value=None)
+
+
+# ---------------------------------------------------------------------------------------
+# who may write the announced structures: the functions of TABLE (checked by C17.a/b) and the constructors
+STRUCT_MUTATORS = ('append', 'insert', 'remove', 'pop', 'popitem', 'clear', 'extend', 'update', 'setdefault', '__delitem__',
+                   '__setitem__', 'move_to_end', 'sort', 'reverse')
+WRITERS = {
+    # field: (class that owns the field or None = any receiver, allowed writer constructs)
+    '_components': (None, ['glue.core.data:Data.__init__', 'glue.core.data:Data.add_component', 'glue.core.data:Data.remove_component',
+                           'glue.core.data:Data.reorder_components', 'glue.core.data:Data.update_id']),
+    '_subsets': (None, ['glue.core.data:BaseData.__init__', 'glue.core.data:BaseData.add_subset', 'glue.core.subset:Subset.delete']),
+    '_data': ('glue.core.data_collection.DataCollection',
+              ['glue.core.data_collection:DataCollection.__init__', 'glue.core.data_collection:DataCollection.append',
+               'glue.core.data_collection:DataCollection.remove']),
+}
+
+
+def _struct_writes(node, fields):
+    """(field, receiver text, statement-ish node) for every structural write of one of ``fields`` inside ``node`` (not nested defs)."""
+    out = []
+    for n in walk_no_nested(node):
+        tgts = []
+        if isinstance(n, (ast.Assign, ast.Delete)):
+            tgts = list(n.targets)
+        elif isinstance(n, (ast.AugAssign, ast.AnnAssign)):
+            tgts = [n.target]
+        flat = []
+        for t in tgts:
+            flat.extend(t.elts if isinstance(t, (ast.Tuple, ast.List)) else [t])
+        for t in flat:
+            base = t.value if isinstance(t, ast.Subscript) else t
+            if isinstance(base, ast.Attribute) and base.attr in fields:
+                out.append((base.attr, unparse(base.value), n))
+        if isinstance(n, ast.Call) and isinstance(n.func, ast.Attribute) and n.func.attr in STRUCT_MUTATORS \
+                and isinstance(n.func.value, ast.Attribute) and n.func.value.attr in fields:
+            out.append((n.func.value.attr, unparse(n.func.value.value), n))
+    return out
+
+
+def rule_h(ctx, ix):
+    """Only the announcing mutators (and the constructors) write the structures whose changes are announced."""
+    R = 'C17.h'
+    ctx.describe(R, 'the announced structures are written only by the functions that announce (and by constructors)', floor=10)
+    tabled = set()
+    for cq, name, *_ in TABLE:
+        tabled.add(_func(ix, cq, name).construct)
+    for fld, (owner, allowed) in WRITERS.items():
+        for a in allowed:
+            if not a.endswith('.__init__') and a not in tabled:
+                raise AnalysisError('C17.h: allowed writer %s of %s is not a row of the announce table' % (a, fld))
+    seen = {f: 0 for f in WRITERS}
+
+    def visit(mod, node, stack, cls):
+        for ch in ast.iter_child_nodes(node):
+            if isinstance(ch, ast.ClassDef):
+                visit(mod, ch, stack + [ch.name], ch.name if not stack else cls)
+            elif isinstance(ch, (ast.FunctionDef, ast.AsyncFunctionDef)):
+                construct = '%s:%s' % (mod.name, '.'.join(stack + [ch.name]))
+                owner_cls = '%s.%s' % (mod.name, stack[0]) if stack else None
+                for fld, recv, n in _struct_writes(ch, set(WRITERS)):
+                    owner, allowed = WRITERS[fld]
+                    if owner is not None:
+                        c = ix.classes.get(owner_cls) if owner_cls else None
+                        if c is None or not (c.qualname == owner or c.is_subclass_of(ix.cls(owner))) or recv != 'self':
+                            continue
+                    seen[fld] += 1
+                    top = '%s:%s' % (mod.name, '.'.join((stack + [ch.name])[:2] if stack else [ch.name]))
+                    ok = construct in allowed or top in allowed
+                    ctx.ob(R, '%s `%s`' % (construct, norm(n) if isinstance(n, ast.stmt) else unparse(n)),
+                           'the structure %s is written only where the change is announced' % fld, ok,
+                           detail='%s changes %s.%s with `%s` but is not one of the announcing mutators %s: the structural change '
+                                  'is made without its documented message' % (construct, recv, fld, unparse(n)[:120],
+                                                                             [a.split(':')[1] for a in allowed]),
+                           where='%s:%d' % (mod.relpath, n.lineno))
+                visit(mod, ch, stack + [ch.name], cls)
+            elif not isinstance(ch, (ast.expr, ast.expr_context)):
+                visit(mod, ch, stack, cls)
+
+    for name, mod in sorted(ix.modules.items()):
+        visit(mod, mod.tree, [], None)
+    for fld, n in seen.items():
+        if n < 3:
+            raise AnalysisError('C17.h: only %d writes of %s recognised' % (n, fld))
